@@ -200,9 +200,10 @@ func (r *Run) Violation(sig, what string, replay any) bool {
 		return true
 	}
 	for _, f := range r.known {
-		if f.Key == sig {
-			if !r.knownHit[sig] {
-				r.knownHit[sig] = true
+		// a key ending in '*' lists a family of signatures sharing that prefix (same defect, one signature per input class)
+		if f.Key == sig || (strings.HasSuffix(f.Key, "*") && strings.HasPrefix(sig, strings.TrimSuffix(f.Key, "*"))) {
+			if !r.knownHit[f.Key] {
+				r.knownHit[f.Key] = true
 				fmt.Printf("KNOWN-FINDING: property=%s %s [%s]\n", r.ID, f.What, sig)
 			}
 			return false
